@@ -447,10 +447,7 @@ func (e *Enc) evalIdent(name string, ctx *specCtx) *Val {
 	if v, ok := ctx.bound[name]; ok {
 		return v
 	}
-	if name == "result" {
-		if ctx.result == nil {
-			e.fail("'result' used outside a postcondition")
-		}
+	if name == "result" && ctx.result != nil {
 		return ctx.result
 	}
 	if en, ok := ctx.env[name]; ok {
@@ -821,6 +818,9 @@ func (e *Enc) evalBinarySpec(x SBinary, ctx *specCtx) *Val {
 				o = b
 			}
 			r = "(= " + o.L[0] + " 0)"
+		case len(a.L) == 2 && len(b.L) == 2 && a.T != nil && isPointerType(a.T):
+			// pointers: nil is ref 0 whatever the index
+			r = "(and (= " + a.L[0] + " " + b.L[0] + ") (or (= " + a.L[0] + " 0) (= " + a.L[1] + " " + b.L[1] + ")))"
 		case len(a.L) == len(b.L):
 			var eqs []string
 			for i := range a.L {
@@ -1312,8 +1312,17 @@ func (e *Enc) callPureInSpec(x SCall, ctx *specCtx) *Val {
 	if retT == nil {
 		e.fail("function %s has no result", x.Fn)
 	}
-	for _, a := range x.Args {
-		args = append(args, e.evalSpec(a, ctx))
+	for i, a := range x.Args {
+		v := e.evalSpec(a, ctx)
+		if i < sig.Params().Len() {
+			pt := sig.Params().At(i).Type()
+			if _, isIface := pt.Underlying().(*types.Interface); isIface && v.T != nil {
+				if _, already := v.T.Underlying().(*types.Interface); !already {
+					v = e.makeInterface(v, v.T)
+				}
+			}
+		}
+		args = append(args, v)
 	}
 	// typed arguments: untyped spec integers take the parameter type
 	key := funcObjKey(fo)
@@ -1327,6 +1336,11 @@ func (e *Enc) callPureInSpec(x SCall, ctx *specCtx) *Val {
 		st = ctx.old
 	}
 	return e.pureApp(e.pureName(ctr, key), e.pureArgs(ctr, args, st), retT)
+}
+
+func isPointerType(t types.Type) bool {
+	_, ok := t.Underlying().(*types.Pointer)
+	return ok
 }
 
 func (e *Enc) pureVarCall(key string, sig *types.Signature, x SCall, ctx *specCtx) *Val {
